@@ -15,6 +15,29 @@
 
 use serde::{Deserialize, Deserializer, Serializer};
 
+/// Hex decoding of untrusted strings: `grin_util::from_hex` slices its argument by byte
+/// index, which panics on multi-byte characters, so anything that is not ASCII is
+/// refused here first
+fn from_hex(hex: &str) -> Result<Vec<u8>, String> {
+	if !hex.is_ascii() {
+		return Err(format!("Not a hex string: {}", hex));
+	}
+	crate::grin_util::from_hex(hex)
+}
+
+/// Fills `dst` with the first bytes of `src`, or fails if `src` is too short
+fn copy_prefix(dst: &mut [u8], src: &[u8]) -> Result<(), String> {
+	if src.len() < dst.len() {
+		return Err(format!(
+			"Invalid length: expected {} bytes, got {}",
+			dst.len(),
+			src.len()
+		));
+	}
+	dst.copy_from_slice(&src[0..dst.len()]);
+	Ok(())
+}
+
 /// Seralizes a byte string into base64
 pub fn as_base64<T, S>(bytes: T, serializer: S) -> Result<S::Ok, S::Error>
 where
@@ -36,8 +59,10 @@ where
 
 /// Serializes an Option<secp::Signature> to and from hex
 pub mod option_rangeproof_hex {
+	use super::from_hex;
+	use crate::grin_util::secp::constants::MAX_PROOF_SIZE;
 	use crate::grin_util::secp::pedersen::RangeProof;
-	use crate::grin_util::{from_hex, ToHex};
+	use crate::grin_util::ToHex;
 	use serde::de::{Error, IntoDeserializer};
 	use serde::{Deserialize, Deserializer, Serializer};
 
@@ -60,7 +85,12 @@ pub mod option_rangeproof_hex {
 		Option::<String>::deserialize(deserializer).and_then(|res| match res {
 			Some(string) => from_hex(&string)
 				.map_err(|err| Error::custom(err.to_string()))
-				.and_then(|val| Ok(Some(RangeProof::deserialize(val.into_deserializer())?))),
+				.and_then(|val| {
+					if val.len() > MAX_PROOF_SIZE {
+						return Err(Error::custom("Invalid range proof length"));
+					}
+					Ok(Some(RangeProof::deserialize(val.into_deserializer())?))
+				}),
 			None => Ok(None),
 		})
 	}
@@ -130,7 +160,8 @@ pub mod ov3_serde {
 
 /// Serializes an ed25519 PublicKey to and from hex
 pub mod dalek_seckey_serde {
-	use crate::grin_util::{from_hex, ToHex};
+	use super::from_hex;
+	use crate::grin_util::ToHex;
 	use ed25519_dalek::SecretKey as DalekSecretKey;
 	use serde::{Deserialize, Deserializer, Serializer};
 
@@ -158,7 +189,8 @@ pub mod dalek_seckey_serde {
 
 /// Serializes an ed25519 PublicKey to and from hex
 pub mod dalek_pubkey_serde {
-	use crate::grin_util::{from_hex, ToHex};
+	use super::from_hex;
+	use crate::grin_util::ToHex;
 	use ed25519_dalek::PublicKey as DalekPublicKey;
 	use serde::{Deserialize, Deserializer, Serializer};
 
@@ -186,7 +218,8 @@ pub mod dalek_pubkey_serde {
 
 /// Serializes an x25519 PublicKey to and from hex
 pub mod dalek_xpubkey_serde {
-	use crate::grin_util::{from_hex, ToHex};
+	use super::from_hex;
+	use crate::grin_util::ToHex;
 	use serde::{Deserialize, Deserializer, Serializer};
 	use x25519_dalek::PublicKey as xDalekPublicKey;
 
@@ -208,7 +241,7 @@ pub mod dalek_xpubkey_serde {
 			.and_then(|string| from_hex(&string).map_err(|err| Error::custom(err.to_string())))
 			.and_then(|bytes: Vec<u8>| {
 				let mut b = [0u8; 32];
-				b.copy_from_slice(&bytes[0..32]);
+				super::copy_prefix(&mut b, &bytes).map_err(Error::custom)?;
 				Ok(xDalekPublicKey::from(b))
 			})
 	}
@@ -272,7 +305,7 @@ pub mod option_dalek_pubkey_base64 {
 				.map_err(|err| Error::custom(err.to_string()))
 				.and_then(|bytes: Vec<u8>| {
 					let mut b = [0u8; 32];
-					b.copy_from_slice(&bytes[0..32]);
+					super::copy_prefix(&mut b, &bytes).map_err(Error::custom)?;
 					DalekPublicKey::from_bytes(&b)
 						.map(Some)
 						.map_err(|err| Error::custom(err.to_string()))
@@ -291,7 +324,8 @@ pub mod option_dalek_pubkey_serde {
 	use serde::de::Error;
 	use serde::{Deserialize, Deserializer, Serializer};
 
-	use crate::grin_util::{from_hex, ToHex};
+	use super::from_hex;
+	use crate::grin_util::ToHex;
 
 	///
 	pub fn serialize<S>(key: &Option<DalekPublicKey>, serializer: S) -> Result<S::Ok, S::Error>
@@ -314,7 +348,7 @@ pub mod option_dalek_pubkey_serde {
 				.map_err(|err| Error::custom(err.to_string()))
 				.and_then(|bytes: Vec<u8>| {
 					let mut b = [0u8; 32];
-					b.copy_from_slice(&bytes[0..32]);
+					super::copy_prefix(&mut b, &bytes).map_err(Error::custom)?;
 					DalekPublicKey::from_bytes(&b)
 						.map(Some)
 						.map_err(|err| Error::custom(err.to_string()))
@@ -330,7 +364,8 @@ pub mod option_xdalek_pubkey_serde {
 	use serde::{Deserialize, Deserializer, Serializer};
 	use x25519_dalek::PublicKey as xDalekPublicKey;
 
-	use crate::grin_util::{from_hex, ToHex};
+	use super::from_hex;
+	use crate::grin_util::ToHex;
 
 	///
 	pub fn serialize<S>(key: &Option<xDalekPublicKey>, serializer: S) -> Result<S::Ok, S::Error>
@@ -353,7 +388,7 @@ pub mod option_xdalek_pubkey_serde {
 				.map_err(|err| Error::custom(err.to_string()))
 				.and_then(|bytes: Vec<u8>| {
 					let mut b = [0u8; 32];
-					b.copy_from_slice(&bytes[0..32]);
+					super::copy_prefix(&mut b, &bytes).map_err(Error::custom)?;
 					Ok(Some(xDalekPublicKey::from(b)))
 				}),
 			None => Ok(None),
@@ -368,7 +403,8 @@ pub mod dalek_sig_serde {
 	use serde::{Deserialize, Deserializer, Serializer};
 	use std::convert::TryFrom;
 
-	use crate::grin_util::{from_hex, ToHex};
+	use super::from_hex;
+	use crate::grin_util::ToHex;
 
 	///
 	pub fn serialize<S>(sig: &DalekSignature, serializer: S) -> Result<S::Ok, S::Error>
@@ -387,8 +423,8 @@ pub mod dalek_sig_serde {
 			.and_then(|string| from_hex(&string).map_err(|err| Error::custom(err.to_string())))
 			.and_then(|bytes: Vec<u8>| {
 				let mut b = [0u8; 64];
-				b.copy_from_slice(&bytes[0..64]);
-				DalekSignature::try_from(b).map_err(|err| Error::custom(err.to_string()))
+				super::copy_prefix(&mut b, &bytes).map_err(Error::custom)?;
+				DalekSignature::try_from(&b[..]).map_err(|err| Error::custom(err.to_string()))
 			})
 	}
 }
@@ -400,7 +436,8 @@ pub mod option_dalek_sig_serde {
 	use serde::{Deserialize, Deserializer, Serializer};
 	use std::convert::TryFrom;
 
-	use crate::grin_util::{from_hex, ToHex};
+	use super::from_hex;
+	use crate::grin_util::ToHex;
 
 	///
 	pub fn serialize<S>(sig: &Option<DalekSignature>, serializer: S) -> Result<S::Ok, S::Error>
@@ -423,8 +460,8 @@ pub mod option_dalek_sig_serde {
 				.map_err(|err| Error::custom(err.to_string()))
 				.and_then(|bytes: Vec<u8>| {
 					let mut b = [0u8; 64];
-					b.copy_from_slice(&bytes[0..64]);
-					DalekSignature::try_from(b)
+					super::copy_prefix(&mut b, &bytes).map_err(Error::custom)?;
+					DalekSignature::try_from(&b[..])
 						.map(Some)
 						.map_err(|err| Error::custom(err.to_string()))
 				}),
@@ -462,8 +499,8 @@ pub mod option_dalek_sig_base64 {
 				.map_err(|err| Error::custom(err.to_string()))
 				.and_then(|bytes: Vec<u8>| {
 					let mut b = [0u8; 64];
-					b.copy_from_slice(&bytes[0..64]);
-					DalekSignature::try_from(b)
+					super::copy_prefix(&mut b, &bytes).map_err(Error::custom)?;
+					DalekSignature::try_from(&b[..])
 						.map(Some)
 						.map_err(|err| Error::custom(err.to_string()))
 				}),
@@ -585,11 +622,95 @@ pub mod uuid_base64 {
 			})
 			.and_then(|bytes: Vec<u8>| {
 				let mut b = [0u8; 16];
-				b.copy_from_slice(&bytes[0..16]);
+				super::copy_prefix(&mut b, &bytes).map_err(Error::custom)?;
 				Ok(Uuid::from_bytes(b))
 			})
 	}
 }
+/// As `grin_core::libtx::secp_ser::blind_from_hex`, which unwraps the hex decoding:
+/// returns an error instead of panicking on a string that is not hex
+pub fn blind_from_hex<'de, D>(
+	deserializer: D,
+) -> Result<crate::grin_keychain::BlindingFactor, D::Error>
+where
+	D: Deserializer<'de>,
+{
+	use serde::de::Error;
+	String::deserialize(deserializer)
+		.and_then(|string| from_hex(&string).map_err(Error::custom))
+		.map(|bytes| crate::grin_keychain::BlindingFactor::from_slice(&bytes))
+}
+
+/// As `grin_core::libtx::secp_ser::commitment_from_hex`, refusing non-ASCII strings
+/// (which make `grin_util::from_hex` panic)
+pub fn commitment_from_hex<'de, D>(
+	deserializer: D,
+) -> Result<crate::grin_util::secp::pedersen::Commitment, D::Error>
+where
+	D: Deserializer<'de>,
+{
+	use serde::de::Error;
+	String::deserialize(deserializer)
+		.and_then(|string| from_hex(&string).map_err(Error::custom))
+		.map(|bytes| crate::grin_util::secp::pedersen::Commitment::from_vec(bytes))
+}
+
+/// As `grin_core::libtx::secp_ser::pubkey_serde`, refusing non-ASCII strings
+pub mod pubkey_serde {
+	use super::from_hex;
+	use crate::grin_util::secp::key::PublicKey;
+	use crate::grin_util::static_secp_instance;
+	use serde::{Deserialize, Deserializer};
+
+	pub use crate::grin_core::libtx::secp_ser::pubkey_serde::serialize;
+
+	///
+	pub fn deserialize<'de, D>(deserializer: D) -> Result<PublicKey, D::Error>
+	where
+		D: Deserializer<'de>,
+	{
+		use serde::de::Error;
+		let static_secp = static_secp_instance();
+		let static_secp = static_secp.lock();
+		String::deserialize(deserializer)
+			.and_then(|string| from_hex(&string).map_err(Error::custom))
+			.and_then(|bytes: Vec<u8>| {
+				PublicKey::from_slice(&static_secp, &bytes).map_err(Error::custom)
+			})
+	}
+}
+
+/// As `grin_core::libtx::secp_ser::option_sig_serde`, refusing non-ASCII strings
+pub mod option_sig_serde {
+	use super::from_hex;
+	use crate::grin_util::{secp, static_secp_instance};
+	use serde::de::Error;
+	use serde::{Deserialize, Deserializer};
+
+	pub use crate::grin_core::libtx::secp_ser::option_sig_serde::serialize;
+
+	///
+	pub fn deserialize<'de, D>(deserializer: D) -> Result<Option<secp::Signature>, D::Error>
+	where
+		D: Deserializer<'de>,
+	{
+		let static_secp = static_secp_instance();
+		let static_secp = static_secp.lock();
+		Option::<String>::deserialize(deserializer).and_then(|res| match res {
+			Some(string) => from_hex(&string)
+				.map_err(Error::custom)
+				.and_then(|bytes: Vec<u8>| {
+					let mut b = [0u8; 64];
+					super::copy_prefix(&mut b, &bytes).map_err(Error::custom)?;
+					secp::Signature::from_compact(&static_secp, &b)
+						.map(Some)
+						.map_err(Error::custom)
+				}),
+			None => Ok(None),
+		})
+	}
+}
+
 // Test serialization methods of components that are being used
 #[cfg(test)]
 mod test {
